@@ -10,19 +10,27 @@ a configuration of the same code) in which every history wraps several times.
 The reduced ring is used for this monitor only: two datagrams with equal seq
 are >= 63 builds, i.e. > 1 s, apart exactly as with the real ring (65535/60 s).
 Thorough adds one honest history that really wraps the 16-bit counter.
+Start kind "slowhs": handshakes over an asymmetric slow link whose round trip is
+swept frame by frame from 0.2 s to 2.3 s (1/64, 1/60, 1/50 s frames), so the
+server hello meets every timer of the connecting client (re-sends, keep-alive,
+the 2 s connect timeout) in some configuration; the application is quiet, sends
+from inside the connect callback, or has sent before.
 
 Oracle, per session key: the 12-byte nonces (bytes 0-11) of all encrypted
 datagrams of both endpoints are pairwise distinct; every datagram emitted by an
 endpoint that holds a key, except SERVER_HELLO, decrypts with AES-GCM called
 directly (nonce = bytes 0-11, AAD = bytes 0-19 - so the whole header is
 authenticated); the application marker never occurs in any emitted datagram.
+A datagram typed CLIENT_HELLO is no exception once the client connection that
+emits it holds a key (hello re-queued in the frame in which the server hello
+arrived, handshake started inside a session): it is ciphertext like the rest.
 """
 import itertools
 import struct
 
 from mc import core, explore, seams
 from mc.world import World, Monitor
-from mc.pair import app_send, DeliveryMonitor, add_bystander
+from mc.pair import app_send, DeliveryMonitor, add_bystander, RETRY
 
 core.import_repo()
 from cryptography.hazmat.primitives.ciphers.aead import AESGCM  # noqa
@@ -35,6 +43,52 @@ MARK = b"@@C03-PLAINTEXT-MARKER@@"
 SH = PacketType.SERVER_HELLO.value
 
 
+def describe_clear(data):
+    """for the violation text only: what a datagram that is not ciphertext gives away when it is read as a crc protected one"""
+    try:
+        import zlib
+        length = struct.unpack(">H", data[13:15])[0]
+        body = data[20:20 + length]
+        if len(data) != 20 + length + 4 or struct.pack(">I", zlib.crc32(data[:20 + length]) & 0xffffffff) != data[20 + length:]:
+            return "it is not a crc protected clear datagram either"
+        count = data[15]
+        kinds = []
+        if count == 1:
+            kinds.append((data[12], len(body) - 2))
+        else:
+            for i in range(count):
+                n, _seq, t = struct.unpack(">HHB", body[:5])
+                kinds.append((t, n))
+                body = body[5 + n:]
+
+        def name(t):
+            try:
+                return str(PacketType(t)).split(".")[-1]
+            except Exception:
+                return "type %d" % t
+        parts = ["%s (%d bytes)" % (name(t), n) for t, n in kinds]
+        text = "it reads as a CLEAR crc protected datagram carrying " + ", ".join(parts)
+        if any(t == PacketType.CHALLENGE_RESP.value for t, n in kinds):
+            text += ": the challenge response is readable on the wire"
+        if any(t in (PacketType.APP.value, PacketType.APP_FRAGMENT.value) for t, n in kinds):
+            text += ": application bytes are readable on the wire"
+        return text
+    except Exception as e:
+        return "(not parsed: %s)" % type(e).__name__
+
+
+class SlowReturn(Monitor):
+    """asymmetric link: datagrams of the server take ``s2c`` ticks (the world's own latency applies client -> server)"""
+
+    def __init__(self, s2c):
+        Monitor.__init__(self)
+        self.s2c = s2c
+
+    def on_send(self, w, d):
+        if d.src == "s":
+            d.release_tick = d.sent_tick + self.s2c
+
+
 class NonceMonitor(Monitor):
     def __init__(self):
         Monitor.__init__(self)
@@ -43,6 +97,8 @@ class NonceMonitor(Monitor):
         self.clear = 0
         self.wraps = 0
         self.last_seq = {}
+        self.keyed_hello_clear = 0
+        self.keyed_hello_sealed = 0
 
     def sender_conn(self, w, d):
         if d.src == "s":
@@ -72,6 +128,23 @@ class NonceMonitor(Monitor):
                 self.flag("not-ciphertext", "a datagram other than the hellos is emitted without a session key (packet type %d)" % typ,
                           "%s datagram #%d type %d len %d" % (d.src, d.id, typ, len(d.data)))
             return
+        if typ == PacketType.CLIENT_HELLO.value and conn is not None and not conn.isServer and conn.session_key_bytes:
+            # (the connection object itself holds the key - not the remembered key of an earlier connection of that peer)
+            # a datagram typed CLIENT_HELLO that leaves a client which already HOLDS a session key (a hello re-queued in the very
+            # frame in which the server hello arrived; a handshake started inside a session): "every datagram emitted after key
+            # agreement except the signed server hello" includes it - it has to be ciphertext under that key like the rest
+            try:
+                AESGCM(conn.session_key_bytes).decrypt(d.data[:12], d.data[20:], d.data[:20])
+            except Exception:
+                self.keyed_hello_clear += 1
+                what = describe_clear(d.data)
+                status = str(conn.status).split(".")[-1]
+                self.flag("not-ciphertext", "a client that already holds the session key emits a datagram typed CLIENT_HELLO that is not AES-GCM ciphertext under that key (client %s%s)" % (
+                              status, "; the challenge response travels in it" if "challenge response" in what else ""),
+                          "%s datagram #%d type %d len %d, client status %s, %.3f s after the first datagram of this world; %s" % (
+                              d.src, d.id, typ, len(d.data), status, w.vt.now - w.all_sent[0].sent_time, what))
+                return
+            self.keyed_hello_sealed += 1
         if typ == PacketType.CLIENT_HELLO.value and conn is not None and conn.status == ConnectionStatus.CONNECTING and not conn.isServer:
             self.clear += 1
             return
@@ -180,6 +253,43 @@ def scenario(params, ch):
         patches.set(SeqNum, "_threshold", 31)
     w = None
     try:
+        if start.startswith("slowhs:"):
+            # a SLOW handshake: client -> server takes ``latency`` ticks, server -> client s2c ticks (swept tick by tick by
+            # params_list), so the server hello reaches the client in every frame between 0.2 s and 2.3 s after its hello
+            # left - every timer of the connecting client (re-sends, keep-alive, connect timeout) coincides with the arrival
+            # in one configuration.  The application is quiet until it is connected ("quiet"), sends from inside the connect
+            # callback ("cbsend"), or has sent before ("early").  No deviations: the link itself is the configuration.
+            _, s2c, app = start.split(":")
+            hs = {"ok": []}
+
+            def on_connected(world, ce, ok):
+                hs["ok"].append(ok)
+                if ok and app == "cbsend":
+                    for mode in ("none", "retry"):
+                        data = MARK + b"from-connect-callback-" + mode.encode()
+                        dm.note_sent("c", data)
+                        ce.client.send(data, retry=RETRY[mode].value)
+            w = World(order=order, latency=latency, chooser=ch, monitors=[SlowReturn(int(s2c)), mon, dm], dt=dt, on_connected=on_connected)
+            if app == "early":
+                for mode in ("none", "retry"):
+                    app_send(w, dm, "c", MARK + b"early-" + mode.encode(), mode)
+            total = latency + int(s2c)
+
+            def both(w_):
+                return w_.clients[0].client.connected() and w_.clients[0].addr in w_.ctxt.connections
+            connected = w.run(2 * total + 40, both)
+            if connected:
+                # one exchange of every kind in the young session
+                do_step(w, dm, "small")
+                do_step(w, dm, "retry")
+            w.run(int(0.6 / dt))
+            if w.clients[0].client.conn is not None:
+                w.clients[0].client.disconnect()
+            w.run(12)
+            ch.steps = w.tickno
+            ch.outcome = ("slowhs", connected, tuple(hs["ok"]), mon.encrypted > 0, mon.keyed_hello_sealed > 0)
+            ch.info = {"encrypted": mon.encrypted, "wraps": mon.wraps}
+            return
         if start == "early":
             # the application does not wait for the connection: it sends while the handshake is still under way
             w = World(order=order, latency=max(latency, 6), chooser=ch, monitors=[mon, dm], dt=dt, fates=["drop", "delay8"])
@@ -288,6 +398,23 @@ def params_list(tier):
                 cfgs += [("sc", 0, 1.0 / 64), ("cs", 0, 1.0 / 60)]
             for order, latency, dt in cfgs:
                 out.append((start, p, order, latency, dt))
+    out += slow_handshake_params(tier)
+    return out
+
+
+def slow_handshake_params(tier):
+    """handshakes whose round trip is swept tick by tick: client -> server 1 tick (thorough: also 8), server -> client every
+    number of ticks that makes the total 0.2 s ... 2.3 s (past the 2 s connect timeout of either end), at every frame length
+    the file uses, three application behaviours (quick: client turn first, "early" at 1/64 s only; thorough: both turn orders)"""
+    out = []
+    for dt in (1.0 / 64, 1.0 / 60, 0.02):
+        for c2s in ((1,) if tier == "quick" else (1, 8)):
+            for s2c in range(max(1, int(0.2 / dt) - c2s), int(2.3 / dt) + 1):
+                for order in (("cs",) if tier == "quick" else ("cs", "sc")):
+                    for app in ("quiet", "cbsend", "early"):
+                        if tier == "quick" and app == "early" and dt != 1.0 / 64:
+                            continue
+                        out.append(("slowhs:%d:%s" % (s2c, app), (), order, c2s, dt))
     return out
 
 
@@ -391,6 +518,8 @@ def run(tier, seed):
         "states": st.points, "transitions": st.steps, "traces_validated_against_impl": st.executions,
         "executions": st.executions, "by_deviations": st.by_cost, "configurations": len(plist), "capped": st.capped,
         "distinct_outcomes": len(st.outcomes), "long_wrap_histories": long_rows, "direct_drive_configurations": len(djobs), "direct_drive_datagrams": d_emitted,
+        "slow_handshake_configurations": sum(1 for p in plist if p[0].startswith("slowhs:")),
+        "slow_handshake_round_trips_s": "0.2 .. 2.3 in steps of one frame (1/64, 1/60, 1/50 s)",
         "evaluations": st.executions, "distinct_nontrivial": len(st.outcomes),
         "rule": "histories = all programs of <=%d steps over %r x start states {early sends during the handshake, fresh, both counters preset to 65530, reduced ring 63} x <=1 deviation (drop/dup/delay8 of any datagram); "
                 "every emitted datagram is checked by the monitor (reference AES-GCM decrypt with the 20-byte header as AAD, nonce table per session key, plaintext marker); outcomes = (encrypted seen, wrapped, #clear datagrams); plus direct drive of a keyed ConnectionBase (send + _build_packet) under clock-step patterns incl. a clock that does not move between calls" % (
